@@ -18,7 +18,8 @@ THEOREMS = ['C16_quoted_atom_roundtrip', 'C16_quoted_atom_in_context', 'C16_quot
             'C16_list_pattern_folds', 'C16_list_literal', 'C16_anon_fresh', 'C16_anon_name_inj', 'C16_anon_not_source',
             'C16_literal_denotation', 'C16_makelist_listpair_chain', 'C16_to_python_literal', 'C16_to_python_compiled_literal',
             'C16_api_term_unifies', 'C16_atom_identity', 'C16_atom_unify_by_name',
-            'C16_file_bytes_roundtrip', 'C16_file_entry_point', 'C16_cli_reads_text', 'C16_file_decoding_strict', 'C16_file_encoding_injective', 'C16_file_ascii_bytes']
+            'C16_file_bytes_roundtrip', 'C16_file_entry_point', 'C16_cli_reads_text', 'C16_file_decoding_strict', 'C16_file_encoding_injective', 'C16_file_ascii_bytes',
+            'C16_to_python_objects_value', 'C16_to_python_fresh_lists', 'C16_to_python_results_disjoint', 'C16_to_python_twice']
 RULE = ('programs of facts fact_i(L, V1..Vn), rules body_i(R, V1..Vn) :- R = L and at_j(A) for random literals L: plain and quoted '
         'atoms (spaces, quotes, line breaks, tabs, non-ASCII incl. astral and combining code points, digits-only, empty, [] ), '
         'integers with leading zeros and bignums, named and anonymous variables, compound terms with plain, quoted and operator '
@@ -31,6 +32,8 @@ RULE = ('programs of facts fact_i(L, V1..Vn), rules body_i(R, V1..Vn) :- R = L a
         'command line from a file and from standard input) must denote the same terms. Files given as BYTES (UTF-8 of a random atom, damaged '
         'or extended by overlong forms, surrogates, truncated / stray bytes, boundary code points, byte order marks, CR forms) read through '
         'the file / command-line / standard-input entry points against the model\'s strict UTF-8 decoder and front end. '
+        'Every value returned by to_python is changed in place at every depth after it was compared (append, insert, +=, clear), every conversion '
+        'is made four times (function, method, both again), all literals are converted again at the end of the case, and no list object may occur in two results. '
         'Non-trivial: the literal contains a quoted atom with a quote, line break or non-ASCII character, or a list pattern. '
         'Distinct by hash of the program text.')
 TRUSTED_BASE = [
@@ -614,20 +617,83 @@ def _build_alt(yp, t, varmap):
         return yp.functor('.', [_build_alt(yp, t[1], varmap), _build_alt(yp, t[2], varmap)])
     raise ValueError(t)
 
+# ---- aliasing of conversion results (round 4).  A value returned by to_python belongs to the caller: whatever the caller
+# does to it (append, insert, +=, clear) must not change what any later conversion gives, and two conversions must never hand
+# out the same mutable object.  Every result obtained by this check is therefore (1) encoded, (2) searched for list objects
+# that an EARLIER result (all objects are kept alive, so ids are not reused) or another place of the same result already contains,
+# (3) changed in place at every depth; every conversion is made twice through the function and twice through the method,
+# each after the previous result has been changed, and all must encode alike.  The engines of one case are shared by all its
+# conversions, so anything that survives in the engine poisons every later expected value as well.
+_HELD = []
+_HELD_IDS = {}
+_MUT = [0]
+TAINT = 'VERIF-C16-CALLER-DATA'
+
+def _alias_reset():
+    del _HELD[:]
+    _HELD_IDS.clear()
+    _MUT[0] = 0
+
+def _mutable_parts(v, acc):
+    if isinstance(v, list):
+        acc.append(v)
+        for x in v: _mutable_parts(x, acc)
+    elif isinstance(v, tuple):
+        for x in v: _mutable_parts(x, acc)
+    elif isinstance(v, (dict, set, bytearray)):
+        acc.append(v)
+    return acc
+
+def _hold_and_mutate(raw):
+    """-> None, or a description of the sharing found; then the caller's changes are applied to the result"""
+    parts = _mutable_parts(raw, [])
+    prob = None
+    seen = set()
+    for l in parts:
+        if id(l) in seen:
+            prob = 'the same list object occurs twice in one result'
+        elif id(l) in _HELD_IDS:
+            prob = 'a list object of the result of conversion no. %d is part of the result of conversion no. %d' % (_HELD_IDS[id(l)], len(_HELD))
+        seen.add(id(l))
+    n = len(_HELD)
+    _HELD.append((raw, parts))       # the parts too: a cleared list would release its items and their ids could come back
+    for l in parts:
+        _HELD_IDS.setdefault(id(l), n)
+    for l in parts:
+        if not isinstance(l, list):
+            continue
+        _MUT[0] += 1
+        m = _MUT[0] % 5
+        if m == 0: l.append(TAINT)
+        elif m == 1: l.insert(0, TAINT)
+        elif m == 2: l += [TAINT, [TAINT]]
+        elif m == 3:
+            del l[:]
+            l.extend([TAINT])
+        else:
+            l.append(l[0] if l else TAINT); l.reverse()
+    return prob
+
 def _topy(E, x):
-    try:
-        v = enc(E.to_python(x))
-    except TypeError:
-        return ['raised', 'TypeError']
+    convs = [lambda: E.to_python(x)]
     if isinstance(x, E.IUnifiable):
-        # the method and the module function are the same conversion
-        try:
-            w = enc(x.to_python())
-        except TypeError:
-            w = ['raised', 'TypeError']
-        if w != v:
-            return ['method-differs', v, w]
-    return v
+        convs.append(lambda: x.to_python())      # the method and the module function are the same conversion
+    vals = []
+    for _round in (0, 1):
+        for c in convs:
+            try:
+                raw = c()
+            except TypeError:
+                vals.append(['raised', 'TypeError'])
+                continue
+            v = enc(raw)
+            prob = _hold_and_mutate(raw)
+            if prob:
+                return ['shared-mutable-object', prob, v]
+            vals.append(v)
+    if any(w != vals[0] for w in vals[1:]):
+        return ['conversions-differ (function, method, and both again after the caller changed the earlier results in place)'] + vals
+    return vals[0]
 
 def _succeeds(E, a, b, after=None):
     n = 0
@@ -790,6 +856,7 @@ def _impl_bytes(case):
     return {'bytes': out}
 
 def impl(case):
+    _alias_reset()
     if case.get('kind') == 'bytes':
         return _impl_bytes(case)
     from yldprolog import engine as E
@@ -906,7 +973,7 @@ def impl(case):
         X = yp.variable()
         for _ in yp.query('fact%d' % i, [X] + [yp.variable() for _ in vs]):
             pass
-        o['unbound_after'] = E.to_python(X) is None
+        o['unbound_after'] = _topy(E, X) is None
         out['lits'].append(o)
     for j, a in enumerate(case['atoms']):
         X = yp.variable(); X2 = yp2.variable()
@@ -921,7 +988,7 @@ def impl(case):
         r['in_functor'] = [_succeeds(E, yp.functor1('w', yp.atom(a)), yp2.functor('w', [yp2.atom(a)]))[0],
                            _succeeds(E, yp.functor1('w', yp.atom(a)), yp2.functor('w', [yp2.atom(a + '~')]))[0],
                            _succeeds(E, yp.atom(a), yp.functor(a, []))[0], _succeeds(E, yp.functor(a, []), yp2.atom(a))[0]]
-        r['to_python'] = enc(E.to_python(yp.atom(a)))
+        r['to_python'] = _topy(E, yp.atom(a))
         out['atoms'].append(r)
     # atoms of different names are different objects, do not unify, and the fact at_i(name_i) does not answer for name_j
     clash = []
@@ -939,12 +1006,25 @@ def impl(case):
     # the empty list: one object per engine, however it is obtained; raw Python values convert to themselves
     X = yp.variable()
     out['nil'] = {'makelist': yp.makelist([]) is yp.ATOM_NIL, 'atom': yp.atom('[]') is yp.ATOM_NIL,
-                  'topy': [enc(E.to_python(yp.ATOM_NIL)), enc(E.to_python(yp.makelist([]))), enc(yp.atom('[]').to_python())],
+                  'topy': [_topy(E, yp.ATOM_NIL), _topy(E, yp.makelist([])), _topy(E, yp.atom('[]'))],
                   'other': yp.ATOM_NIL is not yp2.ATOM_NIL, 'cross': _succeeds(E, yp.ATOM_NIL, yp2.makelist([]))[0],
                   'after_clear': _nil_after_clear(E, case),
                   'raw': [enc(E.to_python(v)) for v in (0, 7, -3, 10 ** 30, 'text', '', None)],
                   'raw_unify': [_succeeds(E, 7, 7)[0], _succeeds(E, 7, 8)[0], _succeeds(E, 7, yp.atom('7'))[0], _succeeds(E, yp.atom('7'), 7)[0],
                                 _succeeds(E, X, 7, lambda: enc(E.to_python(X)))]}
+    # every result handed out so far has been changed in place by its receiver: ALL the conversions of the compiled
+    # literals once more, in the engine that made them and in the other one - they must give what they gave the first time
+    again = {}
+    for pred in ('allh', 'allb'):
+        Rs = [yp.variable() for _ in case['lits']]
+        again[pred] = [[[_topy(E, R), _struct(yp, R)] for R in Rs] for _ in yp.query(pred, Rs)]
+    for tag, eng in (('facts', yp), ('facts_other_engine', yp2)):
+        again[tag] = []
+        for i, lit in enumerate(case['lits']):
+            X = eng.variable()
+            again[tag].append([_topy(E, X) for _ in eng.query('fact%d' % i, [X] + [eng.variable() for _ in named_vars(lit)])])
+    again['api'] = [[_topy(E, _build(eng, lit, {})) for eng in (yp, yp2)] for lit in case['lits']]
+    out['again'] = again
     return out
 
 def _nil_after_clear(E, case):
@@ -1071,6 +1151,18 @@ def oracle(case, io):
     r = _expected_from(case['lits'], case, io) or _entries_and_all(case['lits'], case, io)
     if r:
         return r
+    ag = io.get('again')
+    if ag is not None:
+        first = [o['fact_free'] for o in io['lits']]
+        for what, a, b in (('all literals in one clause head', ag['allh'], io['allh']), ('all literals in one clause body', ag['allb'], io['allb']),
+                           ('the facts', ag['facts'], first), ('the facts (in the second engine)', ag['facts_other_engine'], first)):
+            if a != b:
+                return ('%s converted again after the receivers of all earlier to_python results changed those results in place (append, insert, +=, clear): '
+                        '%r, the first time %r' % (what, a, b))[:900]
+        for i, lit in enumerate(case['lits']):
+            free = py_of(lit, {})
+            if not has_raise(free) and ag['api'][i] != [free, free]:
+                return 'literal %d built through the API and converted after earlier results were changed in place: %r, expected %r' % (i, ag['api'][i], free)
     if io.get('atom_clashes'):
         return 'atoms of different names are identified (same object, or unify, or answer each other\'s facts): %r' % (io['atom_clashes'][:3],)
     if io['nil'] != NIL_WANT:
